@@ -345,6 +345,42 @@ def t2(ctx):
             for b in h.kids[-1].walk():
                 if b.kind == 'BinaryOperator' and b.op == '=' and snapshot.name in b.text(4):
                     restored = True
+    # an extra flag of the sort (e.g. `reverse`) must be honoured on every path that returns
+    # normally - including the last resort, which leaves the input order
+    extra = [p_[0] for p_ in f.params[1:] if p_[0]]
+    for flag in extra:
+        writes = []
+        for c in calls_in(f.body):
+            nm = c.callee_name()
+            if nm in ('PyList_Sort', 'PyList_SetSlice'):
+                writes.append((c, False))
+            elif c.kind == 'CXXOperatorCallExpr' and nm == 'operator()' and 'Py_ID_sort' in c.text(6):
+                honoured = any(re.search(r'\b%s\b' % re.escape(flag), a.text(6)) for a in c.kids[2:] if a is not None)
+                writes.append((c, honoured))
+        wn = {cfg.cnode_of(c) for c, _ in writes if cfg.cnode_of(c) is not None}
+        revs = {cn.idx for cn in cfg.nodes if cn.ast is not None and
+                any(x.kind in CALL_KINDS and x.callee_name() == 'PyList_Reverse' for x in cn.ast.walk())}
+
+        def flag_false(v, w, lab, flag=flag):
+            cn = cfg.nodes[v]
+            return cn.kind == 'cond' and cn.ast is not None and lab is False and \
+                member_path(strip_casts(cn.ast)) == flag
+        bad = []
+        for c, honoured in writes:
+            n0 = cfg.cnode_of(c)
+            if honoured or n0 is None:
+                continue
+            starts = [w for (w, lab) in cfg.succ[n0] if lab != 'exc']
+            reach = cfg.reachable_from(starts, flag_false, (wn - {n0}) | revs)
+            if cfg.exit.idx in reach:
+                bad.append(c)
+        ctx.check('TotalOrderSort/flag-%s-honoured' % flag, not bad,
+                  'engine: the `%s` flag is applied after every stage that leaves the list in its '
+                  'final order' % flag,
+                  'engine: the `%s` flag is ignored after `%s` (the list is returned without the '
+                  'flag having been applied on that path): callers that rely on it get the other '
+                  'order for exactly the inputs that reach this stage'
+                  % (flag, bad[0].text(3)[:60] if bad else ''), bad[0].loc if bad else f.loc)
     ctx.check('TotalOrderSort/last-resort-restores-input-order', restored,
               'engine: a snapshot taken before the first sort is restored when both sorts fail',
               'engine: both sorts run in place on the same list and nothing restores it when the '
@@ -433,3 +469,53 @@ def t7(ctx):
     ctx.check('typing.structseq_fields/member-table', okp,
               'the twin lists the member descriptors of the class, cut at n_sequence_fields',
               'the Python twin does not list the member descriptors cut at n_sequence_fields', mod.loc(fn))
+
+
+@rule('T8', floor=2, title='the field-listing twins read the class, never the instance')
+def t8(ctx):
+    """The engine lists fields with getattr(<type>, ...) where <type> is the argument itself when it
+    is a class and type(argument) otherwise.  An attribute read on the *instance* goes through the
+    instance dictionary and __getattribute__, which a subclass may populate or override - the twin
+    then lists other names than the engine for the same object."""
+    pkg = ctx.py()
+    prog = ctx.cxx()
+    mod = pkg.mod('optree.typing')
+    for name, attr in (('namedtuple_fields', '_fields'), ('structseq_fields', 'n_sequence_fields')):
+        fn = mod.func(name)
+        param = [a.arg for a in fn.args.posonlyargs + fn.args.args][0]
+        reads = [n_ for n_ in walk(fn) if isinstance(n_, ast.Attribute) and n_.attr == attr]
+        ctx.require(reads, 'typing.%s: no read of .%s' % (name, attr))
+        bases = {src(r.value) for r in reads}
+        ok = param not in bases and all(isinstance(r.value, ast.Name) for r in reads)
+        if ok:
+            # the local that holds the class is `type(<param>)` on the instance path and the
+            # parameter itself on the class path
+            for b in bases:
+                asg = [s_ for s_ in walk(fn) if isinstance(s_, ast.Assign) and is_name(s_.targets[0], b)]
+                vals = {src(s_.value) for s_ in asg}
+                ok = ok and vals == {param, 'type(%s)' % param}
+        ctx.check('typing.%s/reads-the-class' % name, ok,
+                  '%s reads .%s from the class (the argument if it is a class, type(argument) otherwise)'
+                  % (name, attr),
+                  '%s reads .%s from %s: for an instance this goes through the instance dictionary / '
+                  '__getattribute__, the engine reads the type' % (name, attr, sorted(bases)), mod.loc(fn))
+    for cname, idname in (('NamedTupleGetFields', '_fields'),):
+        f = prog.one(cname)
+        gets = [c for c in calls_in(f.body, {'getattr'})
+                if any((x.callee_name() or '') == 'Py_ID_' + idname for x in calls_in(c))]
+        ctx.require(gets, '%s: no getattr(..., %s)' % (cname, idname))
+        inits = {}
+        asg = {}
+        for n_ in f.body.walk():
+            if n_.kind == 'CXXOperatorCallExpr' and n_.callee_name() == 'operator=' and len(n_.kids) == 3:
+                asg.setdefault(member_path(n_.kids[1]), []).append(n_.kids[2])
+        ok = True
+        for g in gets:
+            base = member_path(strip_casts(g.call_args()[0]))
+            vals = asg.get(base, [])
+            texts = [v.text(4) for v in vals]
+            ok = ok and base not in [p_[0] for p_ in f.params] and \
+                any('handle_of' in t or 'type::of' in t for t in texts)
+        ctx.check('%s/reads-the-class' % cname, ok,
+                  '%s reads %s from the type object' % (cname, idname),
+                  '%s reads %s from its argument, not from the type' % (cname, idname), f.loc)
